@@ -30,10 +30,11 @@ import (
 const goBin = "/opt/veriftools/go1.26.8/bin"
 
 var (
-	repoDir    = "/repo"
-	verifDir   = "/verif"
-	harnessDir = "/verif/harness"
-	workDir    = "/verif/.work"
+	repoDir     = "/repo"
+	verifDir    = "/verif"
+	harnessDir  = "/verif/harness"
+	workDir     = "/verif/.work"
+	evidenceDir = "/verif/evidence"
 )
 
 type harness struct {
@@ -120,6 +121,7 @@ func overlayFor(symbolic bool) (map[string][]byte, []harness) {
 
 func fatal(code int, f string, a ...any) {
 	fmt.Printf(f+"\n", a...)
+	os.RemoveAll(workDir)
 	os.Exit(code)
 }
 
@@ -360,9 +362,26 @@ func main() {
 	if v := os.Getenv("VERIF_REPO"); v != "" {
 		repoDir = v
 	}
+	// the verification tree is wherever this binary lives (<verif>/bin/vcheck): a snapshot of
+	// /verif run elsewhere uses its own harnesses and writes its own evidence
+	if exe, err := os.Executable(); err == nil {
+		root := filepath.Dir(filepath.Dir(exe))
+		if st, err := os.Stat(filepath.Join(root, "harness", "common")); err == nil && st.IsDir() {
+			verifDir = root
+			harnessDir = filepath.Join(root, "harness")
+		}
+	}
+	evidenceDir = filepath.Join(verifDir, "evidence")
+	if v := os.Getenv("VERIF_EVIDENCE_DIR"); v != "" {
+		evidenceDir = v
+	}
+	// one scratch directory per process, removed on exit, so concurrent checks never share build output
+	workDir = filepath.Join(verifDir, ".work", fmt.Sprintf("p%d", os.Getpid()))
 
 	if *replayFile != "" {
-		os.Exit(doReplay(*replayFile, *tier))
+		rc := doReplay(*replayFile, *tier)
+		os.RemoveAll(workDir)
+		os.Exit(rc)
 	}
 
 	prop := flag.Arg(0)
@@ -524,6 +543,7 @@ func main() {
 	wall := time.Since(t0).Seconds()
 	writeEvidence(prop, *tier, seed, evs, todo, wall, violations, problems, w)
 	fmt.Printf("[%s] exit=%d wall=%.1fs\n", prop, exit, wall)
+	os.RemoveAll(workDir)
 	os.Exit(exit)
 }
 
@@ -754,7 +774,7 @@ func writeEvidence(prop, tier string, seed int, evs []harnessEvidence, hs []harn
 	} else if trans == 0 {
 		cov["transitions"] = 1
 	}
-	os.MkdirAll(filepath.Join(verifDir, "evidence"), 0o755)
+	os.MkdirAll(evidenceDir, 0o755)
 	b, _ := json.MarshalIndent(ev, "", " ")
-	os.WriteFile(filepath.Join(verifDir, "evidence", prop+".json"), b, 0o644)
+	os.WriteFile(filepath.Join(evidenceDir, prop+".json"), b, 0o644)
 }
